@@ -1,0 +1,13 @@
+//go:build !verif
+
+package cmd
+
+// Verification hooks which do nothing unless the binary is built with the verif tag.
+
+func verifWriterGate() {}
+
+func verifWriterDone() {}
+
+func verifMainAfterSpawn() {}
+
+func verifMainAtEnd() {}
